@@ -1,4 +1,5 @@
 import SigHook.Props.C11
+import SigHook.Lemmas.Scan
 /-!
 # C10 — Signal iterators report only real, registered, not-yet-reported deliveries
 
@@ -269,3 +270,27 @@ example : ∃ s, Reachable true [10, 12] 278 0 [[.deliver 10, .deliver 10], [.pe
   exact key _ _ Reachable.init
 
 end SigHook.Iter
+
+/-! ## Info-carrying exfiltrators (`WithRawSiginfo`, `WithOrigin`)
+
+Their slot is a per-signal `Channel`: the action `send`s the kernel's record, `Pending::next`
+`recv`s. What reaches the consumer is what the channel hands out, so C10 for them rests on
+C06 - C08 (every received value was sent once, is received at most once, in order; never a torn or
+invented one: `C07_race_free_declared`, `C06_fifo_transitions`) and on the scan handing out each
+queued record exactly once (`C09_scan_hands_out_everything`). The two ties to the source that those
+theorems need are repeated here so that C10's own check notices when they break. -/
+namespace SigHook.Scan
+
+/-- **C10.records_once_each** — a drain yields every queued record exactly as often as it is
+queued (the yielded list *is* the queued list), so no record is reported twice and none invented -/
+theorem C10_records_once_each (fuel : Nat) (s : St) (hf : (queued s).length < fuel) (r : Nat) :
+    ((drain true fuel s).1.count r) = (queued s).count r := by
+  rw [scan_hands_out_everything fuel s hf]
+
+/-- tie to the source (regenerated): `recv` takes the record out of the cell before it hands the
+slot index back to the senders; `send` writes the cell before it publishes the index -/
+theorem C10_channel_order_skeleton :
+    skelOf chanFile "recv" = ["dequeue.full", "cell.take", "enqueue.empty"] ∧
+    skelOf chanFile "send" = ["dequeue.empty", "cell.write", "enqueue.full"] ∧ staysOnHit = true := by decide
+
+end SigHook.Scan
